@@ -33,9 +33,15 @@ Definition run_C07 (op : bytes) (input : arg) : arg :=
     let name := arg_bytes (arg_nth 0 input) in
     let data := arg_bytes (arg_nth 1 input) in
     let oracle := arg_list (arg_nth 2 input) in
+    let neutral := arg_bytes (arg_nth 5 input) in
     AL [obs_result arg_of_info (inspect (sniff_of oracle) (parse_of oracle) name data);
         match candidates_in (sniff_of oracle) table name data with
-        | Ok l => AL (map AB l) | _ => AZ 2 end]
+        | Ok l => AL (map AB l) | _ => AZ 2 end;
+        (* what the implementation says about the same content under the neutral name: the table
+           walk under the GIVEN name predicts it whenever that name is not one of the two reserved
+           ones (name invariance; Proofs/Dispatch.v unreserved_names_equivalent) *)
+        obs_result arg_of_info
+          (inspect (sniff_of oracle) (parse_of oracle) (if reserved_name name then neutral else name) data)]
   else AL [].
 
 (* ---- the property, stated independently of the table: signatures typed from the
@@ -53,6 +59,34 @@ Definition spec_signatures : list (bytes * bytes) := [
 ].
 
 Definition pgp_magic := bs "-----BEGIN PGP P".
+Definition pgp_any_magic := bs "-----BEGIN PGP ".
+
+(* the two reserved SSH file names of the statement *)
+Definition spec_reserved : list bytes := [bs "authorized_keys"; bs "known_hosts"].
+Definition spec_reserved_name (name : bytes) : bool :=
+  match name with [] => false | _ => existsb (bytes_eqb (basename name)) spec_reserved end.
+
+(* "described as that format": the description names the format (lower-cased keywords, from the
+   format names of the statement); any non-empty description for PEM, whose description is that
+   of the block's content *)
+Definition spec_keywords (p : bytes) : list bytes :=
+  if bytes_eqb p (bs "PuttyPPK") then [bs "putty"]
+  else if bytes_eqb p (bs "JCEKeystore") then [bs "jceks"]
+  else if bytes_eqb p (bs "JavaKeystore") then [bs "jks"]
+  else if bytes_eqb p (bs "RPMFile") then [bs "rpm"]
+  else if bytes_eqb p (bs "SSH1PrivateKey") then [bs "ssh"; bs "1"]
+  else if bytes_eqb p (bs "PGPPublicKey") then [bs "pgp"; bs "public"]
+  else if bytes_eqb p (bs "PGPPrivateKey") then [bs "pgp"; bs "private"]
+  else [].
+Definition names_format (p desc : bytes) : bool :=
+  match desc with [] => false | _ =>
+    let d := map to_lower_ascii desc in forallb (fun k => contains k d) (spec_keywords p) end.
+
+Fixpoint first_sig (data : bytes) (sigs : list (bytes * bytes)) : option bytes :=
+  match sigs with
+  | [] => None
+  | (m, p) :: rest => if prefix_of m data then Some p else first_sig data rest
+  end.
 
 Fixpoint count_occ_bytes (p l : bytes) : nat :=
   match l with
@@ -82,13 +116,45 @@ Definition check_C07 (op : bytes) (input impl : arg) : arg :=
     let exact := match name with [] => false | _ =>
                    bytes_eqb base (bs "authorized_keys") || bytes_eqb base (bs "known_hosts") end in
     let any := existsb arg_bool (arg_list impl) in
-    if Bool.eqb any exact then AL [] else AS "reserved SSH file name matched on something other than the exact base name"
+    if Bool.eqb any exact then AL []
+    else if exact then AS "no table row claims a file whose base name is exactly a reserved SSH file name"
+    else AS "a file name whose base name is not exactly authorized_keys or known_hosts satisfies a row's name predicate"
   else if bytes_eqb op (bs "inspect") then
     let data := arg_bytes (arg_nth 1 input) in
     let oracle := arg_list (arg_nth 2 input) in
     match arg_nth 0 impl with
     | AL [AZ 0%Z; ia] =>
         let i := info_of_arg ia in
+        let name := arg_bytes (arg_nth 0 input) in
+        let wf := arg_bytes (arg_nth 4 input) in
+        (* (w) a well-formed instance BY CONSTRUCTION of a signature format (the generator names the
+           format; the signature list above says which signature that is) is described as that
+           format, whatever the file is called *)
+        let wf_verdict :=
+          match wf with
+          | [] => AL []
+          | _ =>
+            match first_sig data spec_signatures with
+            | Some p =>
+                if negb (bytes_eqb p wf) then AS "generator error: the claimed format is not the one whose signature the content starts with"
+                else match parse_of oracle wf data with
+                     | Ok want =>
+                         if negb (names_format wf (i_desc i)) then
+                           AB (bs "a well-formed instance of a signature format is not described as that format: " ++ wf)
+                         else if info_eqb i want then AL []
+                         else AB (bs "a well-formed instance of a signature format is described differently from what its format's parser says: " ++ wf)
+                     | _ => AB (bs "a well-formed instance of a signature format is rejected by that format's parser (so it is not described as that format): " ++ wf)
+                     end
+            | None => AS "generator error: the content does not start with a signature"
+            end
+          end in
+        match wf_verdict with AL [] =>
+        (* (n) the reserved SSH names apply to exact base names only: under any other name the
+           description is the one the same content gets under a neutral name *)
+        if negb (spec_reserved_name name)
+           && negb (arg_eqb (arg_nth 0 impl) (match arg_nth 2 impl with AL [] => arg_nth 0 impl | x => x end))
+        then AS "the description depends on the file name although its base name is not a reserved SSH file name"
+        else
         (* (b') constructed bundles: the harness also ran the PEM parser on the same file with its
            PGP armor segments removed; PGP armor must contribute nothing to a generic PEM description *)
         let without_pgp := arg_nth 3 input in
@@ -100,7 +166,7 @@ Definition check_C07 (op : bytes) (input impl : arg) : arg :=
         (* (b) PGP armor never reported as generic PEM: the PEM blocks described cannot outnumber
            the BEGIN markers that are not PGP armor *)
         let n_other := (count_occ_bytes (bs "-----BEGIN ") data - count_occ_bytes (bs "-----BEGIN PGP ") data)%nat in
-        if prefix_of pgp_magic data &&
+        if prefix_of pgp_any_magic data &&
            ((bytes_eqb (i_desc i) (bs "unknown PEM data") && Nat.eqb n_other 0)
             || (bytes_eqb (i_desc i) (bs "multiple PEM blocks") && Nat.ltb n_other (length (i_children i))))
         then AS "PGP armor reported as generic PEM"
@@ -124,6 +190,7 @@ Definition check_C07 (op : bytes) (input impl : arg) : arg :=
             else if existsb (fun o => match result_of_obs (arg_nth 1 o) with Ok j => info_eqb i j | _ => false end) oracle
             then AL [] else AS "description carries content that no single candidate parser produced"
         end
+        | v => v end
     | _ => AS "inspection failed (panic or error)"
     end
   else AL [].
